@@ -258,6 +258,37 @@ func genCacheControl(r *rand.Rand) (val string, forbid bool, maxAge int64) {
 // 304 that announce a Content-Length different from the bytes written: a hit must replay the same headers; (2) with
 // CacheableMethods = [GET] and a key generator that ignores the method, a HEAD request must reach the handler and must
 // neither be answered from nor populate the cache.
+// expiresUptimeProbe (C13): "otherwise until a future Expires, otherwise for the default TTL" is measured from the moment
+// the response is stored, however long the middleware has been alive. A middleware that is 1.3 s old stores (a) a response
+// whose Expires lies 2-3 s ahead: it may live no longer than that; (b) a response whose Expires lies 1 s in the past
+// (later than the middleware's creation): not a future Expires, so the default TTL governs.
+func expiresUptimeProbe(m *meta) {
+	mw, err := httpcache.New(httpcache.Config{MaxSize: 100, ShardCount: 1, EvictionPolicy: kioshun.LRU, DefaultTTL: time.Hour, DisableCleanup: true})
+	must(err)
+	defer mw.Close()
+	mw.SetKeyGenerator(httpcache.KeyWithoutQuery())
+	var exp string
+	h := mw.Wrap(http.HandlerFunc(func(w http.ResponseWriter, rq *http.Request) {
+		w.Header().Set("Expires", exp)
+		w.WriteHeader(200)
+		w.Write([]byte("x"))
+	}))
+	time.Sleep(1300 * time.Millisecond)
+	exp = time.Now().Add(3 * time.Second).UTC().Format(http.TimeFormat)
+	h.ServeHTTP(httptest.NewRecorder(), httptest.NewRequest("GET", "/soon", nil))
+	if _, rem, ok := mw.VerifPeek("GET:/soon"); !ok {
+		m.violate("C13", "a plain 200 response with Expires 3 s ahead (no Cache-Control) was not stored by a middleware created 1.3 s earlier", "expires uptime probe")
+	} else if rem > 3*time.Second+50*time.Millisecond || rem <= 0 {
+		m.violate("C13", fmt.Sprintf("a middleware created 1.3 s earlier stored a response whose Expires (%s) lies at most 3 s ahead with %v left to live: a response governed by Expires lives until that instant, measured when it is stored", exp, rem), "expires uptime probe")
+	}
+	exp = time.Now().Add(-1 * time.Second).UTC().Format(http.TimeFormat)
+	h.ServeHTTP(httptest.NewRecorder(), httptest.NewRequest("GET", "/past", nil))
+	if _, rem, ok := mw.VerifPeek("GET:/past"); ok && (rem < time.Hour-10*time.Second || rem > time.Hour) {
+		m.violate("C13", fmt.Sprintf("a middleware created 1.3 s earlier stored a response whose Expires (%s) lies in the past with %v left to live: a past Expires is not a future Expires, the default TTL (1h) governs", exp, rem), "expires uptime probe")
+	}
+	m.count("expires_uptime_probe")
+}
+
 func httpHeadProbe(m *meta) {
 	same := func(a, b http.Header, skip map[string]bool) (string, bool) {
 		for k, v := range a {
@@ -904,6 +935,7 @@ func streamHTTP(o opts) {
 	w.Close()
 	m.Traces, m.Ops = w.traces, w.ops
 	httpHeadProbe(m)
+	expiresUptimeProbe(m)
 	m.write(o.out)
 }
 
